@@ -1,2 +1,6 @@
 //! Kani harness root of aldrin-broker (hook at the end of broker/src/lib.rs, `cfg(kani)` only).
+//! Units (one `cargo kani` build each, `--cfg verif_unit="<name>"`) live in the child modules that
+//! the hooks in the individual source files pull in; this root only carries the shared environment.
 #![allow(dead_code, unused_imports, missing_debug_implementations, missing_docs, unreachable_pub, unnameable_types)]
+
+pub(crate) mod env;
